@@ -107,6 +107,7 @@ type OpResult struct {
 	Err          string   `json:"err,omitempty"`      // "" nil | "flags.Error" | "flags.IniError" | Go type
 	ErrType      string   `json:"err_type,omitempty"` // flags.ErrorType name
 	Msg          BStr     `json:"msg,omitempty"`
+	Text         BStr     `json:"text,omitempty"` // err.Error()
 	Line         uint     `json:"line,omitempty"`
 	ErrFile      string   `json:"err_file,omitempty"`
 	Injected     int      `json:"injected,omitempty"` // id when the returned error IS an injected error value
@@ -512,6 +513,7 @@ func classifyErr(err error, res *OpResult) {
 	if err == nil {
 		return
 	}
+	res.Text = BStr(errText(err))
 	// is it, by identity, an error value a callee was made to return?
 	if cur != nil {
 		for id, inj := range cur.errs {
